@@ -268,16 +268,16 @@ func executeBinaryExpr(s *ast.AstProcessBinaryExpression, state ProcessState) Pr
 			final := lhs_state.currentValue.getBoolean() != rhs_state.currentValue.getBoolean()
 			final_state.currentValue = ProcessValueBoolean{final}
 		} else if s.Op == ast.LESS {
-			final := lhs_state.currentValue.getNumber() < rhs_state.currentValue.getNumber()
+			final := lhs_state.currentValue.getNumber() < ProcessValueBoolean{rhs_state.currentValue.getBoolean()}.getNumber()
 			final_state.currentValue = ProcessValueBoolean{final}
 		} else if s.Op == ast.GREATER {
-			final := lhs_state.currentValue.getNumber() > rhs_state.currentValue.getNumber()
+			final := lhs_state.currentValue.getNumber() > ProcessValueBoolean{rhs_state.currentValue.getBoolean()}.getNumber()
 			final_state.currentValue = ProcessValueBoolean{final}
 		} else if s.Op == ast.LESSEQ {
-			final := lhs_state.currentValue.getNumber() <= rhs_state.currentValue.getNumber()
+			final := lhs_state.currentValue.getNumber() <= ProcessValueBoolean{rhs_state.currentValue.getBoolean()}.getNumber()
 			final_state.currentValue = ProcessValueBoolean{final}
 		} else if s.Op == ast.GREATEREQ {
-			final := lhs_state.currentValue.getNumber() >= rhs_state.currentValue.getNumber()
+			final := lhs_state.currentValue.getNumber() >= ProcessValueBoolean{rhs_state.currentValue.getBoolean()}.getNumber()
 			final_state.currentValue = ProcessValueBoolean{final}
 		} else {
 			panic("SHOULDN'T GET HERE (bool) :(")
